@@ -19,10 +19,18 @@ template <class C> struct Runner {
         size_t cap = uri.size() + 1 - (absolute ? 5 : 0);
         C *dst = (C *)name_buf.end_minus(cap * sizeof(C)); const C *src = place(uri); int sig;
         if ((sig = GUARD_ENTER()) != 0) { what = fmt("%s converting '%s' back: wrote beyond the documented len(uriString)+1%s characters", signame(sig), esc(uri).c_str(), absolute ? "-5" : ""); return false; }
-        int rc = to_unix ? A::UriStringToUnixFilename(src, dst) : A::UriStringToWindowsFilename(src, dst); GUARD_LEAVE();
-        if (rc != URI_SUCCESS) { what = fmt("back-conversion rc=%d", rc); return false; }
-        size_t n = 0; while (n < cap && dst[n]) n++; if (n >= cap) { what = "no terminator in the filename buffer"; return false; }
-        out = narrow<C>(dst, dst + n); return true;
+        // the destination is an OUT parameter: the call runs once over a zeroed buffer and once over one filled with "%41%41..", and both must give the same name
+        Str outs[2];
+        for (int pf = 0; pf < 2; pf++) {
+            for (size_t i = 0; i < cap; i++) dst[i] = pf == 0 ? (C)0 : (C)"%41"[i % 3];
+            int rc = to_unix ? A::UriStringToUnixFilename(src, dst) : A::UriStringToWindowsFilename(src, dst);
+            if (rc != URI_SUCCESS) { GUARD_LEAVE(); what = fmt("back-conversion rc=%d", rc); return false; }
+            size_t n = 0; while (n < cap && dst[n]) n++; if (n >= cap) { GUARD_LEAVE(); what = "no terminator in the filename buffer"; return false; }
+            outs[pf] = narrow<C>(dst, dst + n);
+        }
+        GUARD_LEAVE();
+        if (outs[0] != outs[1]) { what = fmt("back-conversion of '%s' depends on what the output buffer held before the call: '%s' over zeros, '%s' over text", esc(uri).c_str(), esc(outs[0]).c_str(), esc(outs[1]).c_str()); return false; }
+        out = outs[0]; return true;
     }
     void one(const Str &name, int dir /*0 unix, 1 windows*/) {
         Str enc = name + fmt("`%d`%s", dir, A::name()); Str what; ctx->progress++;
